@@ -13,11 +13,11 @@ import (
 // C04 — views alias their source, copies never do, and writes stay inside the view.
 
 type C04Write struct {
-	DT    string  `json:"dt"`
-	A     Opnd    `json:"view"`
-	Write string  `json:"write"` // Memset | Zero | SetAtSweep | UnsafeNeg | UnsafeAdd | UnsafeAddScalar | CopyInto | ApplyUnsafe | RootSetAt
-	Code  int64   `json:"code"`
-	Src   *Opnd   `json:"src,omitempty"`
+	DT    string `json:"dt"`
+	A     Opnd   `json:"view"`
+	Write string `json:"write"` // Memset | Zero | SetAtSweep | UnsafeNeg | UnsafeAdd | UnsafeAddScalar | CopyInto | ApplyUnsafe | RootSetAt
+	Code  int64  `json:"code"`
+	Src   *Opnd  `json:"src,omitempty"`
 }
 
 func init() { register("C04.write", func() Case { return &C04Write{} }) }
